@@ -49,6 +49,25 @@ impl<T: PestParser> Parser for T {
             "parts of the input where not parsed"
         );
         pairs.next_back(); // remove EOI
+
+        // Numerals and arities that do not fit the integer types of the syntax tree are
+        // reported as parse errors (the translation below would otherwise panic on them).
+        for pair in pairs.clone().flatten() {
+            let fits = match format!("{:?}", pair.as_rule()).as_str() {
+                "integer" | "numeral" => pair.as_str().parse::<isize>().is_ok(),
+                "arity" => pair.as_str().parse::<usize>().is_ok(),
+                _ => true,
+            };
+            if !fits {
+                return Err(pest::error::Error::new_from_span(
+                    pest::error::ErrorVariant::CustomError {
+                        message: format!("the number `{}` is out of range", pair.as_str()),
+                    },
+                    pair.as_span(),
+                ));
+            }
+        }
+
         Ok(Self::translate_pairs(pairs))
     }
 }
